@@ -726,7 +726,8 @@ def branch_and_bound(tableau, pts1, pts2):
                 return node.simplex.mapping
                 
                 
-        except:
+        except (UNSATException, AssertLowerException, AssertUpperException):
+            # This branch has no rational solution.
             continue
     
     # print("No integer solution!")
